@@ -411,8 +411,117 @@ def h5_findxref(timeout=100, **kw):
                          timeout, concretize=conc)
 
 
+# ---------------------------------------------------------------------------------------------- H6 whole files in every physical form
+def _history(spec):
+    """spec: {"forms": [...], "defs": [[obj numbers defined by revision k]], "packed": [[...]], "eol": b".."} -> (file bytes, expected {n: tag})"""
+    from lib import pdfgen
+    from lib.pdfgen import Ref, Stream
+    base = {1: {"Type": "Catalog", "Pages": Ref(2), "Rev": 0}, 2: {"Type": "Pages", "Kids": [Ref(4)], "Count": 1},
+            3: {"Type": "Font", "Subtype": "Type1", "BaseFont": "Helvetica"},
+            4: {"Type": "Page", "Parent": Ref(2), "MediaBox": [0, 0, 200, 200], "Contents": Ref(5), "Resources": {"Font": {"F1": Ref(3)}}},
+            5: Stream({}, b"BT /F1 10 Tf 10 10 Td (r0) Tj ET"), 6: {"Marker": 0}}
+    revs, expected = [], {}
+    for k, form in enumerate(spec["forms"]):
+        objs = dict(base) if k == 0 else {}
+        for n in spec["defs"][k]:
+            if n == 5:
+                objs[5] = Stream({}, b"BT /F1 10 Tf 10 10 Td (r%d) Tj ET" % k)
+            elif n == 1:
+                objs[1] = {"Type": "Catalog", "Pages": Ref(2), "Rev": k}
+            else:
+                objs[n] = {"Marker": k, "Obj": n}
+        for n in objs:
+            expected[n] = k
+        revs.append({"objs": objs, "form": form, "packed": set(spec["packed"][k]) & set(objs)})
+    return pdfgen.build_history(revs, eol=spec["eol"]), expected
+
+
+def _check_history(spec, caching, bufsiz):
+    """returns None or a description of the first disagreement between the real PDFDocument and the logical history"""
+    import pdfminer.pdfdocument as pd
+    import pdfminer.pdfparser as pp
+    import pdfminer.pdftypes as pt
+    from pdfminer.high_level import extract_text
+    data, expected = _history(spec)
+
+    class P(pp.PDFParser):
+        BUFSIZ = bufsiz
+    try:
+        doc = pd.PDFDocument(P(io.BytesIO(data)), caching=caching)
+    except Exception as e:
+        return "PDFDocument raised %r" % e
+    for n, k in sorted(expected.items()):
+        try:
+            o = doc.getobj(n)
+        except Exception as e:
+            return "getobj(%d) raised %r, revision %d defines it" % (n, e, k)
+        if n == 5:
+            got = o.get_data() if isinstance(o, pt.PDFStream) else o
+            if got != b"BT /F1 10 Tf 10 10 Td (r%d) Tj ET" % k:
+                return "getobj(5) is the content stream %r, the newest definition is revision %d" % (got, k)
+        elif n in (6, 7, 8):
+            if o != ({"Marker": k, "Obj": n} if not (n == 6 and k == 0 and "Obj" not in o) else {"Marker": 0}):
+                return "getobj(%d) = %r, the newest definition is revision %d" % (n, o, k)
+    if doc.catalog.get("Rev") != expected[1]:
+        return "the catalog comes from revision %r, the newest one defining it is %d" % (doc.catalog.get("Rev"), expected[1])
+    # in-use object numbers of every section = exactly those it defines (the reserved container / xref stream numbers aside)
+    nrev = len(spec["forms"])
+    secs = [sorted(i for i in x.get_objids() if i < 800) for x in doc.xrefs]
+    want = []
+    for k in range(nrev - 1, -1, -1):
+        defined = sorted((set(range(1, 7)) if k == 0 else set()) | set(spec["defs"][k]))
+        packed = sorted(set(spec["packed"][k]) & set(defined) - {5}) if spec["forms"][k] != "table" else []
+        if spec["forms"][k] == "hybrid":
+            want.append(sorted(set(defined) - set(packed)))
+            if True:
+                want.append(packed)
+        else:
+            want.append(defined)
+    if [s_ for s_ in secs if s_] != [w for w in want if w]:
+        return "in-use object numbers per section %r, the revisions define %r" % (secs, want)
+    try:
+        txt = extract_text(io.BytesIO(data), caching=caching)
+    except Exception as e:
+        return "extract_text raised %r" % e
+    if txt != "r%d\n\n\x0c" % expected[5]:
+        return "extract_text gives %r, the newest content stream is revision %d" % (txt, expected[5])
+    return None
+
+
+def h6_forms(nrev=2, timeout=300, part=None, **kw):
+    import pdfminer.pdfdocument as pd
+    FORMS = ["table", "stream", "hybrid"]
+
+    def fn(ex):
+        forms = [FORMS[ex.choice(3, "form%d" % k)] for k in range(nrev)]
+        defs, packed = [[]], [[3, 6] if ex.choice(2, "pack0") else []]
+        for k in range(1, nrev):
+            d = [n for n in (1, 5, 6, 7) if ex.choice(2, "def%d_%d" % (k, n))]
+            if not d:
+                raise symx.Abort()
+            defs.append(d)
+            packed.append([n for n in d if n in (6, 7) and ex.choice(2, "pk%d_%d" % (k, n))])
+        spec = {"forms": forms, "defs": defs, "packed": packed, "eol": [b"\n", b"\r\n"][ex.choice(2, "eol")]}
+        caching = ex.choice(2, "caching") == 1
+        bufsiz = [4096, 16][ex.choice(2, "buf")]
+        r = _check_history(spec, caching, bufsiz)
+        ex.require(r is None, "history %r (caching=%s, BUFSIZ=%d): %s" % (spec, caching, bufsiz, r), spec={k: (v if k != "eol" else v.decode()) for k, v in spec.items()}, caching=caching, bufsiz=bufsiz)
+
+    def conc(m, info):
+        return info
+    return core.run_symx("H6_forms", fn, [pd.PDFDocument.__init__, pd.PDFDocument.getobj, pd.PDFDocument.read_xref_from, pd.PDFXRef.load, pd.PDFXRefStream.load, pd.PDFDocument._get_objects],
+                         {"revisions": nrev, "form_per_revision": FORMS, "defined_objects": "any non-empty subset of catalog / content stream / 2 dictionaries per update", "packing": "direct or object stream",
+                          "caching": "on/off", "bufsiz": [4096, 16], "eol": "LF/CRLF", "note": "whole generated files through the real PDFDocument and extract_text; concrete per path (choices)"},
+                         timeout, concretize=conc, part=part)
+
+
 # ---------------------------------------------------------------------------------------------- replay
 def replay(harness, inp):
+    if harness == "H6_forms":
+        spec = dict(inp["spec"])
+        spec["eol"] = spec["eol"].encode()
+        r = _check_history(spec, inp["caching"], inp["bufsiz"])
+        return None if r is None else "document history %r (caching=%s, BUFSIZ=%d): %s" % (inp["spec"], inp["caching"], inp["bufsiz"], r)
     import pdfminer.pdfdocument as pd
     import pdfminer.pdfparser as pp
     if harness == "H1_xrefstream":
@@ -550,7 +659,11 @@ def jobs(tier):
             J.append(Job("H2_lookup:2:%d" % k, "h2_lookup", {"nrev": 2, "part": [k, 2, 7]}, 300, "H2_lookup"))
         for k in range(2):
             J.append(Job("H3_chain:3:%d" % k, "h3_chain", {"nsec": 3, "part": [k, 2, 7]}, 300, "H3_chain"))
+        for k in range(4):
+            J.append(Job("H6_forms:2:%d" % k, "h6_forms", {"nrev": 2, "part": [k, 4, 7]}, 300, "H6_forms"))
     else:
+        for k in range(16):
+            J.append(Job("H6_forms:3:%d" % k, "h6_forms", {"nrev": 3, "part": [k, 16, 10]}, 1800, "H6_forms"))
         for k in range(16):
             J.append(Job("H1_xrefstream:3:%d" % k, "h1_xrefstream", {"nranges": 3, "part": [k, 16, 11]}, 1800, "H1_xrefstream"))
         for k in range(8):
